@@ -403,7 +403,8 @@ func styleFor(docs bool, gaps int) *Style {
 	if !symOn {
 		// pair cases: multi-line and one-line layouts only
 		s.gaps = 0
-		if vstub.Choose(0, 1) == 1 {
+		// (the one-line layout has no place for docs and attributes)
+		if !docs && vstub.Choose(0, 1) == 1 {
 			s.OneLine = true
 		}
 		return s
